@@ -81,6 +81,8 @@ def true_vc(name, outs, idx, concrete_too=True):
 
 def vcs(spec, ctx, outs):
     res = []
+    if outs and outs[0].get("kind") == "skip":
+        return []
     ra, rb, sa, sb, eq = outs[0], outs[1], outs[2], outs[3], outs[4]
     for i, o in enumerate(outs[:4]):
         if o["kind"] != "value" or not isinstance(o["value"], str):
